@@ -1,5 +1,5 @@
 """C15 - Hijri <-> Gregorian scale conversion is a consistent bijection"""
-import time, json, collections, concurrent.futures as cf
+import os, time, json, collections, concurrent.futures as cf
 import vlib
 
 PID = 'C15'
@@ -21,6 +21,14 @@ def run(tier, seed):
         if p.returncode != 0:
             with open(fn, 'a') as f:
                 f.write('\n{"e":"Day","sc":%d,"g":[1901,1,1],"crash":true}\n' % s)
+        chunks.append((fn, 0))
+    # the same days once more with the conversions of several scales taking turns day by day (both table calendars among them): what a
+    # file with rules in different scales does; a conversion must not depend on which scale was asked for before
+    pm = vlib.subprocess.run([drv, 'mixed', tier, str(seed), f'{wd}/mixed'], timeout=900)
+    for s in (9, 10, 1):
+        fn = f'{wd}/mixed.{s}.ndjson'
+        if pm.returncode != 0 or not os.path.exists(fn):
+            with open(fn, 'a') as f: f.write('\n{"e":"Day","sc":%d,"g":[1901,1,1],"crash":true}\n' % s)
         chunks.append((fn, 0))
     v = vlib.validate('TraceScale.tla', 'TraceScale.cfg', chunks, wd)
     accepted = {s: x.get('accepted', 0) for s, x in zip(SCALES.values(), v['extra'])}
